@@ -37,7 +37,7 @@ func (s *State) addCand(t string) {
 			return
 		}
 	}
-	if len(s.cands) < 12 {
+	if len(s.cands) < 16 {
 		s.cands = append(s.cands, t)
 	}
 }
@@ -104,6 +104,9 @@ type Env struct {
 	// mapTypes records, per heap map, the Go type of its values and its shape ("field", "elem",
 	// "cell"), so that every unconstrained version of the map can be given its type invariant.
 	mapTypes map[string]mapType
+	ownedMaps map[string]bool // heap map names of owned slice fields
+	rec      *[]string       // when non-nil: names of heap maps read (footprint recording)
+	revealed map[string]bool // opaque spec predicates revealed in the function being verified
 }
 
 type mapType struct {
@@ -118,6 +121,17 @@ func (e *Env) noteMapType(name string, t types.Type, shape string) {
 	if _, ok := e.mapTypes[name]; !ok {
 		e.mapTypes[name] = mapType{t, shape}
 	}
+}
+
+// ownedAxiom: for slice fields declared "owned", distinct objects never share a backing array. The
+// discipline that maintains it is checked syntactically at every store to such a field.
+func (e *Env) ownedAxiom(name, c string) {
+	if !e.ownedMaps[name] {
+		return
+	}
+	fn := "own!" + c
+	e.ctx.declFun(fn, []string{"Int"}, "Int")
+	e.ctx.axiom("(forall ((r! Int)) (! (=> (not (= (sbase (select " + c + " r!)) 0)) (= (" + fn + " (sbase (select " + c + " r!))) r!)) :pattern ((select " + c + " r!))))")
 }
 
 // typedMapAxiom states the type invariant of an unconstrained heap map version: every stored
@@ -150,12 +164,16 @@ func (e *Env) typedMapAxiom(name, c string) {
 
 // heapGet returns the current term of a heap map, creating its initial constant on demand.
 func (e *Env) heapGet(s *State, name, sort string) string {
+	if e.rec != nil {
+		*e.rec = append(*e.rec, name)
+	}
 	if t, ok := s.heap[name]; ok {
 		return t
 	}
 	if s.epoch != "" {
 		c := e.ctx.declConst(mangle(name)+"!e"+s.epoch, sort)
 		e.typedMapAxiom(name, c)
+		e.ownedAxiom(name, c)
 		s.heap[name] = c
 		s.hsort[name] = sort
 		return c
@@ -169,6 +187,7 @@ func (e *Env) heapGet(s *State, name, sort string) string {
 	}
 	c := e.ctx.declConst(mangle(name)+"!0", sort)
 	e.typedMapAxiom(name, c)
+	e.ownedAxiom(name, c)
 	e.init[name] = c
 	s.heap[name] = c
 	s.hsort[name] = sort
@@ -180,6 +199,7 @@ func (e *Env) heapSet(s *State, name, sort, term string) {
 	e.heapGet(s, name, sort) // make sure the initial constant exists (frames compare against it)
 	c := e.ctx.freshConst(name, sort)
 	s.assume(eq(c, term))
+	e.ownedAxiom(name, c)
 	s.heap[name] = c
 	s.hsort[name] = sort
 }
@@ -189,6 +209,7 @@ func (e *Env) heapHavoc(s *State, name, sort string) string {
 	e.heapGet(s, name, sort)
 	c := e.ctx.freshConst(name, sort)
 	e.typedMapAxiom(name, c)
+	e.ownedAxiom(name, c)
 	s.heap[name] = c
 	s.hsort[name] = sort
 	return c
